@@ -249,30 +249,18 @@ func (c *Ctx) checkRouting25(rel string, sm *StateMachine, H map[*ssa.Function]b
 	mh := c.FuncObj(rel, "Client.messageHandler")
 	fd := c.Decl(mh)
 	dispatch := map[int64]string{}
-	ast.Inspect(fd.Body, func(n ast.Node) bool {
-		sw, ok := n.(*ast.SwitchStmt)
-		if !ok {
-			return true
-		}
-		for _, s := range sw.Body.List {
-			cc := s.(*ast.CaseClause)
-			for _, e := range cc.List {
-				v, ok := constInt(p.TypesInfo, e)
-				if !ok {
-					continue
-				}
-				ast.Inspect(cc, func(m ast.Node) bool {
-					if call, ok := m.(*ast.CallExpr); ok {
-						if f := calleeOf(p.TypesInfo, call); f != nil && strings.HasPrefix(f.Name(), "handle") {
-							dispatch[v] = f.Name()
-						}
-					}
-					return true
-				})
+	var cands []int64
+	for _, v := range c.messageTypeConsts(rel) {
+		cands = append(cands, v)
+	}
+	for v, hs := range dispatchTable(c.SSAOf(mh), cands) {
+		for _, h := range hs {
+			if strings.HasPrefix(h.Name(), "handle") {
+				dispatch[v] = h.Name()
 			}
 		}
-		return false
-	})
+	}
+	_, _ = fd, p
 	if len(dispatch) == 0 {
 		c.Undecided("%s: messageHandler dispatch not readable", rel)
 	}
